@@ -5,7 +5,7 @@
    model/CsvInfer.v (dialect / schema inference, NULL-for-empty typing). *)
 From Coq Require Import NArith List Bool Arith Permutation.
 From GV Require Import model.Csv model.CsvInfer proofs.CsvProofs proofs.CsvFlushProofs proofs.CsvBomProofs
-  proofs.CsvRfcProofs proofs.CsvInferProofs proofs.CsvInferLattice.
+  proofs.CsvQueueProofs proofs.CsvRfcProofs proofs.CsvInferProofs proofs.CsvInferLattice.
 Import ListNotations.
 
 (* ---- chunking ---- *)
@@ -63,6 +63,32 @@ Theorem C17_bom_split_old_refuted :
     records_of (snd (h_st (decode_chunks_h d (c1 :: rest)))) = Some [[[97]]]%N.
 Proof. exact bom_split_old_refuted. Qed.
 Print Assumptions C17_bom_split_old_refuted.
+
+(* 4a. THE FILE QUEUE OF A PARTITION, FULL STATEMENT (ReadCsv::poll_pull + CsvReader::prepare = clear_all +
+   decoder.reset()): whatever state the previous files left the reader in, the rows are those of the files read one by
+   one from a fresh reader - the rows of file i depend on file i only - and per file they are those of one read of the
+   whole file, for every sequence of non-empty reads and every batch capacity. *)
+Theorem C17_read_queue_independent : forall d cap hdr files h,
+  read_queue prepare d cap hdr h files = opt_concat (map (reader_loop_h d cap hdr h_init) files).
+Proof. exact read_queue_independent. Qed.
+Print Assumptions C17_read_queue_independent.
+
+Theorem C17_read_queue_rows : forall d cap hdr files h,
+  1 <= cap -> Forall (fun f => Forall (fun ch => ch <> []) f) files ->
+  read_queue prepare d cap hdr h files
+  = opt_concat (map (fun f => option_map (fun rs => if hdr then tl rs else rs) (run_reader d (concat f))) files).
+Proof. exact read_queue_rows. Qed.
+Print Assumptions C17_read_queue_rows.
+
+(* 4b. regression witness about prepare BEFORE decoder.reset() was added: "1,2\n" then BOM "7,8\n" in one partition
+   kept the BOM of the second file in its first field *)
+Theorem C17_read_queue_old_refuted :
+  exists d files,
+    Forall (fun f => Forall (fun ch => ch <> []) f) files /\
+    read_queue prepare_old d 2048 false h_init files = Some [[[49];[50]]; [[239;187;191;55];[56]]]%N /\
+    read_queue prepare d 2048 false h_init files = Some [[[49];[50]]; [[55];[56]]]%N.
+Proof. exact read_queue_old_refuted. Qed.
+Print Assumptions C17_read_queue_old_refuted.
 
 (* 5. regression witnesses about the OLD definitions (the code before /repo ddfbbbc21 and 0abcb062b): the old reader
    lost the unterminated last record and depended on the cut; the current one does not on the same inputs *)
@@ -132,6 +158,35 @@ Theorem C17_sample_unterminated_last_record :
     run_reader d bs = Some (rfc4180 d bs) /\ run_sample d true bs = Some (rfc4180 d bs).
 Proof. exact sample_unterminated_last_record. Qed.
 Print Assumptions C17_sample_unterminated_last_record.
+
+(* 6d. the sample bind infers from (the buffer is doubled and refilled while it holds fewer than two complete records):
+   it holds two complete records, or reaches the end of the file, or has reached MAX_INFER_BUF_SIZE; a first read that
+   is enough is used as it is.  Regression witness (first read 8 bytes, limit 64): header a,s and one data row ending
+   beyond the first read gave two Boolean columns and a failing scan. *)
+Theorem C17_bind_sample_enough : forall fuel max buflen acc rest eof r,
+  bind_sample fuel max buflen acc rest eof = Some r ->
+  2 <= length (bs_recs r) \/ bs_eof r = true \/ (max <= bs_len r)%N.
+Proof. exact bind_sample_enough. Qed.
+Print Assumptions C17_bind_sample_enough.
+
+Theorem C17_bind_sample_first_enough : forall fuel max buflen acc rest eof od recs,
+  infer_dialect acc eof = Some od ->
+  run_sample match od with Some d => d | None => default_dialect end eof acc = Some recs ->
+  2 <= length recs \/ eof = true ->
+  bind_sample fuel max buflen acc rest eof
+  = Some {| bs_dialect := od; bs_recs := recs; bs_eof := eof; bs_len := buflen |}.
+Proof. exact bind_sample_first_enough. Qed.
+Print Assumptions C17_bind_sample_first_enough.
+
+Theorem C17_sample_grows_old_refuted :
+  read_csv_old 8 grow_file 2048 [grow_file]
+  = ScanOk None {| has_header := true; col_types := [CBool; CBool]; col_names := [Some [97]; Some [115]] |}%N None /\
+  read_csv 8 64 grow_file 2048 [grow_file]
+  = ScanOk (Some comma_dq) {| has_header := true; col_types := [CInt; CUtf8]; col_names := [Some [97]; Some [115]] |}%N
+      (Some [[Some [49]; Some [120;120;120;120;120;120;120;120;120;120]]])%N /\
+  option_map (fun r => (bs_eof r, bs_len r)) (bind_sample_file 8 64 grow_file) = Some (true, 32%N).
+Proof. exact sample_grows_old_refuted. Qed.
+Print Assumptions C17_sample_grows_old_refuted.
 
 (* 7. blank lines: "a\n\nb\n" has two records for the reader and for the spec; a quoted empty field on a line of its
    own ("a\n\"\"\nb\n") is a record of one empty field for both *)
